@@ -196,8 +196,11 @@ impl TypeCollector {
     ) -> Vec<EventContext> {
         let type_resolver = analyzer.get_type_resolver();
 
+        // One listener per distinct event name (the first emit site wins)
+        let mut seen = std::collections::HashSet::new();
         events
             .iter()
+            .filter(|event| seen.insert(event.event_name.clone()))
             .map(|event| {
                 EventContext::new(config).from_event_info(event, visitor, &|rust_type: &str| {
                     type_resolver.borrow_mut().parse_type_structure(rust_type)
